@@ -301,7 +301,7 @@ BUILDERS = {
     'seckey-elgamal': lambda a, b: b_elgamal(5 if a % 2 else 7, True, [0, 254, 255][b % 3]),
     # secret keys of algorithms PGPy does not know (reserved DH 21, private-use 100+): kept as opaque material
     'seckey-unknown-alg': lambda a, b: ([5, 7][a % 2], b'\x04' + wire.u32(1400000000 + b) + bytes([[21, 100, 105, 110][b % 4]]) + wire.mpi_encode((1 << 300) + a) + [b'\x00', b'\xfe\x07\x00\x02', b'\xff\x09\x03\x08saltSALT\x60'][a % 3] + bytes((a + i) & 0xFF for i in range(20 + b % 40))),
-    'seckey-gnu-dummy': lambda a, b: (5, rkeys.build_gnu_dummy_body(*(lambda n: (n[0], n[1], n[2], n[4], n[5]))(keypool.numbers(keypool.ids()[a % len(keypool.ids())])), mode=1 + b % 2, serial=bytes(range(16))[:(0, 16, 4, 7, 12)[(b // 2) % 5]])),
+    'seckey-gnu-dummy': lambda a, b: (5, rkeys.build_gnu_dummy_body(*(lambda n: (n[0], n[1], n[2], n[4], n[5]))(keypool.numbers(keypool.ids()[a % len(keypool.ids())])), mode=1 + b % 2, serial=bytes(range(16))[:(0, 16, 4, 7, 12)[(b // 2) % 5]], **({'halg': 2, 'sym': 3} if a % 3 == 1 else {}))),
     'compressed-zip': lambda a, b: b_compressed(1, a, b),
     'compressed-zlib': lambda a, b: b_compressed(2, a, b),
     'compressed-bz2': lambda a, b: b_compressed(3, a, b),
